@@ -25,6 +25,21 @@ An *agent* is (controller index, app id).  Events, per agent g:
 A tiny reference model (allocated virtual ids, defined-ness of the few registers/arrays the
 menus use, in-flight request) predicts fault / no fault / suspended and which events are
 enabled; it never looks at the implementation.
+
+Invariants after every event: (1) (app, virtual) -> physical injective per controller; (2) used
+set == mapped set (ids of queued keep-responses tolerated, see ASSUMPTIONS); (3) every
+application other than the acting one (and other than those whose queued response the model
+says is consumed) is bit-identical before/after: registers, arrays, shared memory (executor's
+and SharedMemoryManager's object), unit module, active flag; (4) a faulting subroutine leaves
+exactly the state that running only the instructions before the faulting one leaves (replica
+run); (5) after stop nothing keyed by the app remains, its qubits are released, and init of
+the same id succeeds with an all-undefined state; (6) configurations with two controllers and
+equal app ids.
+
+Configurations come in two kinds (see _cfg): 'verbatim' keeps every stale scratch value in the
+state (bounded depth), 'tidy' lets every event normalise its own scratch so that the exact
+state graph is small enough to be explored until the frontier is empty (closed graph =>
+histories of any length over that alphabet).
 """
 from __future__ import annotations
 
@@ -43,6 +58,8 @@ RULE = ("explicit-state BFS over controller histories (events init/stop/qalloc/q
         "(executor's and SharedMemoryManager's view), unit modules, used-physical set, request queues, ordered pending "
         "responses, in-flight subroutines with their program counters (subroutine/message ids and leftovers of faulted "
         "subroutines dropped); every transition executed on the real controller from a freshly replayed history; "
+        "configurations: 'verbatim' (programs as listed, depth-bounded) and 'tidy' (each event also normalises its own "
+        "scratch registers/arrays, explored until the frontier is empty where stated in coverage.bfs); "
         "distinct = distinct canonical states; non-trivial = every transition (each is checked against all invariants)")
 ASSUMPTIONS = [
     "environment contract for keep-responses (weakest reasonable): the reported physical qubit is the lowest id that, at "
@@ -80,19 +97,25 @@ def _cfg(name, nodes, agents, sizes, classical, tidy, depth, max_states):
 
 A2 = [[0, 0], [0, 1]]
 A3 = [[0, 0], [0, 1], [0, 2]]
+CLOSE = 200          # depth bound of the configurations that are run until the frontier is empty
 CONFIGS: Dict[str, List[Dict[str, Any]]] = {
     "quick": [
-        _cfg("q/1node-2apps-verbatim-fine", 1, A2, [[1, 2], [1, 2]], "fine", False, 4, 200000),
-        _cfg("q/1node-2apps-verbatim", 1, A2, [[1, 2], [1, 2]], "coarse", False, 6, 200000),
-        _cfg("q/1node-2apps-tidy", 1, A2, [[1, 2], [1, 2]], "none", True, 8, 200000),
-        _cfg("q/2nodes-same-app-id-tidy", 2, [[0, 0], [1, 0]], [[1, 2], [2]], "coarse", True, 6, 200000),
+        _cfg("q/1node-2apps-verbatim-fine", 1, A2, [[1, 2], [1, 2]], "fine", False, 4, 300000),
+        _cfg("q/1node-2apps-verbatim", 1, A2, [[1, 2], [1, 2]], "coarse", False, 5, 300000),
+        _cfg("q/1node-2apps-tidy", 1, A2, [[1, 2], [1, 2]], "none", True, 7, 300000),
+        _cfg("q/1node-2apps-sizes-1-1-closed", 1, A2, [[1], [1]], "none", True, CLOSE, 300000),
+        _cfg("q/2nodes-same-app-id", 2, [[0, 0], [1, 0]], [[1, 2], [2]], "coarse", True, 6, 300000),
+        _cfg("q/1node-3apps-tidy", 1, A3, [[1], [2], [1]], "none", True, 5, 300000),
     ],
     "thorough": [
-        _cfg("t/1node-2apps-verbatim-fine", 1, A2, [[1, 2], [1, 2]], "fine", False, 6, 400000),
-        _cfg("t/1node-2apps-verbatim", 1, A2, [[1, 2], [1, 2]], "coarse", False, 8, 400000),
-        _cfg("t/1node-2apps-tidy", 1, A2, [[1, 2], [1, 2]], "none", True, 40, 400000),
-        _cfg("t/1node-3apps-tidy", 1, A3, [[1, 3], [2], [1, 4]], "none", True, 8, 400000),
-        _cfg("t/2nodes-3agents-tidy", 2, [[0, 0], [0, 1], [1, 0]], [[1, 2], [3], [1, 2]], "coarse", True, 7, 400000),
+        _cfg("t/1node-2apps-verbatim-fine", 1, A2, [[1, 2], [1, 2]], "fine", False, 6, 600000),
+        _cfg("t/1node-2apps-verbatim", 1, A2, [[1, 2], [1, 2]], "coarse", False, 7, 600000),
+        _cfg("t/1node-2apps-sizes-1-2-closed", 1, A2, [[1], [2]], "none", True, CLOSE, 600000),
+        _cfg("t/1node-1app-sizes-1-2-3-closed", 1, [[0, 0]], [[1, 2, 3]], "coarse", True, CLOSE, 600000),
+        _cfg("t/1node-1app-size-4-closed", 1, [[0, 0]], [[4]], "none", True, CLOSE, 600000),
+        _cfg("t/1node-2apps-tidy", 1, A2, [[1, 2], [1, 2]], "none", True, 9, 600000),
+        _cfg("t/1node-3apps-tidy", 1, A3, [[1, 3], [2], [1, 4]], "none", True, 6, 600000),
+        _cfg("t/2nodes-3agents", 2, [[0, 0], [0, 1], [1, 0]], [[1, 2], [3], [1, 2]], "coarse", True, 6, 600000),
     ],
 }
 
@@ -864,6 +887,9 @@ def run(ctx):
     rows = []
     for cfg in CONFIGS[ctx.tier]:
         rows.append(bfs(ctx, cfg))
+        r = rows[-1]
+        print(f"  {r['config']}: states={r['states']} transitions={r['transitions']} depth_completed={r['depth_completed']}"
+              f"/{r['depth_bound']} frontier_emptied={r['graph_closed']} frontier_left={r['frontier_left']}", flush=True)
     ctx.extra["bfs"] = rows
     ctx.extra["bfs_all_closed"] = all(r["graph_closed"] for r in rows)
     # exhaustive inside the stated depth bounds; open frontiers are listed per configuration in coverage.bfs
